@@ -166,13 +166,16 @@ def correspondence(ctx):
         texts.append(AC.HEADER_D + "Definition cases : list (rule * tbl * list val * val * prog * prog) := "
                      + accir._l(AC.step_case(s) for s, _ in sh) + ".\n"
                      "Eval vm_compute in failing (fun c => match c with (r, t, fr, tg, b, a) => step_ok r t fr tg b a end) cases.\n"
-                     "Eval vm_compute in failing (fun c => match c with (r, t, fr, tg, b, a) => match r with RSimplify => simplify_cert t fr tg b a && wf_prog (tfun t) b | _ => true end end) cases.\n")
+                     "Eval vm_compute in failing (fun c => match c with (r, t, fr, tg, b, a) => match r with RSimplify => simplify_cert t fr tg b a && wf_prog (tfun t) b | _ => true end end) cases.\n"
+                     "Eval vm_compute in failing (fun c => match c with (r, t, fr, tg, b, a) => match r with RElide => elide_cert tg b a | _ => true end end) cases.\n")
     res = vlib.coq_eval_many("c01l1_", texts, timeout=900)
     for sh, (ok, out) in zip(shards, res):
         lists = vlib.parse_all_eval_lists(out)
-        if not ok or len(lists) != 2:
+        if not ok or len(lists) != 3:
             dis.append({"name": "L1:cases-file", "detail": out[-1500:]})
             continue
+        # elide rewrites whose input state is loop-carried / an scf result are outside C01_elide_rule_partial
+        ctx.extra["elide_rewrites_outside_theorem"] = ctx.extra.get("elide_rewrites_outside_theorem", 0) + len(lists[2])
         for idx in lists[0]:
             s, text = sh[idx]
             dis.append({"name": f"L1:{s[0]}", "target": s[1], "text": text, "coq_case": AC.step_case(s)[:1500]})
